@@ -365,6 +365,63 @@ def _wrap_save(out_path):
     Document.save = wrapper
 
 
+def _wrap_styles(out_path):
+    """Document.insert_style of the repository's tests as one-event StylesTrace traces."""
+    import sys
+
+    sys.path.insert(0, os.path.dirname(os.path.dirname(os.path.abspath(__file__))))
+    from harness import styles_lib as sl
+    from odfdo.document import Document
+    from odfdo.element import Element
+
+    orig = Document.insert_style
+
+    def wrapper(self, style, name="", automatic=False, default=False):
+        if getattr(_state, "ydepth", 0) > 0:
+            return orig(self, style, name, automatic, default)
+        _state.ydepth = 1
+        ev = None
+        try:
+            try:
+                if isinstance(style, Element) and getattr(style, "family", None) in sl.MODEL_FAMILIES:
+                    own = style.get_attribute("style:name") or ""
+                    eff = name or own
+                    ev = {"op": {"op": "insert", "d": "doc", "family": style.family, "name": "" if default and style.family != "font-face" and style.family in ("paragraph", "text", "table-cell", "table") else eff,
+                                 "automatic": bool(automatic), "default": bool(default)},
+                          "pre": sl.project(self), "pre_other": {c: [] for c in sl.CONTAINERS}, "test": _current_test["id"]}
+            except Exception:  # noqa: BLE001
+                ev = None
+            try:
+                ret = orig(self, style, name, automatic, default)
+            except Exception as ex:
+                if ev is not None:
+                    ev["exc"] = type(ex).__name__
+                    ev["ret"] = ""
+                    ev["ret_ai"] = 0
+                raise
+            if ev is not None:
+                ev["ret"] = ret if isinstance(ret, str) else ""
+                ev["ret_ai"] = sl.auto_index(ev["ret"])
+                try:
+                    ev["found"] = sl.locate(self, self.get_style(ev["op"]["family"], ev["ret"] if ev["ret"] else None))
+                except Exception:  # noqa: BLE001
+                    pass
+            return ret
+        finally:
+            _state.ydepth = 0
+            if ev is not None:
+                try:
+                    ev["post"] = sl.project(self)
+                    ev["post_other"] = ev["pre_other"]
+                    with open(out_path, "a") as f:
+                        f.write(json.dumps({"kind": "style", **ev}) + "\n")
+                except Exception:  # noqa: BLE001, S110
+                    pass
+
+    wrapper.__doc__ = orig.__doc__
+    Document.insert_style = wrapper
+
+
 def pytest_configure(config):
     if os.environ.get("ODFDO_VERIF") != "1":
         return
@@ -384,6 +441,8 @@ def pytest_configure(config):
 
         _vault_events.clear()
         vault_trace.install(_vault_events, limit=60000)
+    if os.environ.get("ODFDO_VERIF_STYLES") == "1":
+        _wrap_styles(out_path)
     if os.environ.get("ODFDO_VERIF_PKG") == "1":
         _wrap_save(out_path)
     if os.environ.get("ODFDO_VERIF_TEXT") == "1":
